@@ -4,6 +4,9 @@ Import ListNotations.
 Require Import Clarabel.Base.Ops Clarabel.Json.Model Clarabel.Json.Spec.
 Open Scope string_scope.
 
+Lemma string_sites_agree_ok : stmt_string_sites_agree.
+Proof. intros s. split; reflexivity. Qed.
+
 Section Load.
 Context {T : Type} (O : Ops T) (finf fmax : T).
 
@@ -15,6 +18,7 @@ Proof.
   unfold solver_new, check_dimensions_ok.
   apply N.eqb_eq in V8, V7, V6, V5, V4.
   rewrite V8, V4, V7, V5, V6, !N.eqb_refl. cbn [andb negb].
+  rewrite (proj1 (string_sites_agree_ok _)) in V1.
   rewrite V3, V, V1. cbn [negb]. reflexivity.
 Qed.
 
@@ -57,6 +61,16 @@ Proof.
   intros H. apply load_ok_inv in H. destruct H as (q & _ & _ & V). split; [exact V|].
   pose proof (validate_solver_new _ V) as S. unfold solver_new in S.
   destruct (check_dimensions_ok p); [reflexivity|discriminate].
+Qed.
+Lemma load_ok_consumers_accept_ok override j p :
+  load O finf fmax override j = LoadOk p ->
+  consumer_solve_method_ok (get_s O finf (pset p) "direct_solve_method") = true
+  /\ consumer_merge_method_ok (get_s O finf (pset p) "chordal_decomposition_merge_method") = true
+  /\ get_b O finf (pset p) "direct_kkt_solver" = true.
+Proof.
+  intros H. apply load_ok_inv in H. destruct H as (q & _ & _ & V). unfold validate in V.
+  repeat (apply andb_prop in V; let V' := fresh "W" in destruct V as [V V']).
+  rewrite <- (proj1 (string_sites_agree_ok _)), <- (proj2 (string_sites_agree_ok _)). auto.
 Qed.
 End Load.
 
